@@ -1154,6 +1154,20 @@ func execQuery64(w *World, st *Step) {
 				break
 			}
 		}
+		cnt = 0
+		for x := range roaring64.Backward(o.BM) {
+			if cnt >= len(arr) || x != arr[len(arr)-1-cnt] {
+				w.fail("C17", "iterator", "64-bit Backward wrong", fmt.Sprintf("value #%d from the end is %d", cnt, x))
+				return
+			}
+			cnt++
+			if cnt > 500 {
+				break // stopping early must be possible
+			}
+		}
+		if cnt < len(arr) && cnt <= 500 {
+			w.fail("C17", "iterator", "64-bit Backward stopped early", fmt.Sprintf("%d of %d values", cnt, len(arr)))
+		}
 	})
 }
 
